@@ -412,6 +412,14 @@ class ContractSet:
         if word in ('spec', 'rec', 'pred'):
             text = ' '.join(g)
             self.parse_specdef(pkg, word, text[len(word):].strip())
+        elif word == 'ufun':
+            # ufun name(params) ret : an uninterpreted (ghost) function of its arguments
+            text = ' '.join(g)[len(word):].strip()
+            m = re.match(r'([A-Za-z_][A-Za-z_0-9]*)\s*', text)
+            p = Parser(text[m.end():])
+            params = p.parse_params()
+            ret = p.parse_type()
+            self.specs[m.group(1)] = SpecDef('ufun', m.group(1), params, ret, None, None, pkg, text)
         elif word in ('func', 'interface'):
             self.parse_func(prog, pkg, word, g)
         elif word in ('lemma', 'axiom'):
